@@ -532,6 +532,51 @@ func signing(r *ev.Run) {
 			r.Nontrivial(fmt.Sprintf("finished-context:%s:%d", mode, n))
 		}
 	}
+	// an endpoint whose well-formed reply holds public keys but not a single certificate: whatever Sign makes of it
+	// (the keys as they are, or the next endpoint's certificates, or an error), it is never a success without anything
+	for pi, two := range []bool{false, true} {
+		c := r.Case("sign-plain-keys", pi)
+		if c == nil {
+			continue
+		}
+		var lines []string
+		for i := 0; i < 1+pi; i++ {
+			lines = append(lines, strings.TrimSpace(string(ssh.MarshalAuthorizedKey(gen.Pool()[i].Pub)))+" plain"+fmt.Sprint(i))
+		}
+		plain := strings.Join(lines, "\n") + "\n"
+		byIP[ips[0]].Set(func(context.Context, *proto.SSHCertificateSigningRequest) (*proto.SSHKey, error) {
+			return &proto.SSHKey{Key: plain}, nil
+		})
+		text, want, _ := reply(c.Rand, 2)
+		byIP[ips[1]].Set(func(context.Context, *proto.SSHCertificateSigningRequest) (*proto.SSHKey, error) {
+			return &proto.SSHKey{Key: text}, nil
+		})
+		list := []string{ips[0]}
+		if two {
+			list = append(list, ips[1])
+		}
+		r.Eval(1)
+		signer, err := crypki.NewSigner(crypki.SignerConfig{TLSClientKeyFile: clientKey, TLSClientCertFile: clientCert, TLSCACertFiles: []string{caPath}, CrypkiEndpoints: list, CrypkiPort: uint(port), Retries: 1, PerTryTimeout: 10 * time.Second})
+		if err != nil {
+			continue
+		}
+		ctx, cancel := context.WithTimeout(context.Background(), 60*time.Second)
+		certs, comments, serr := signer.Sign(ctx, &proto.SSHCertificateSigningRequest{KeyMeta: &proto.KeyMeta{Identifier: "x"}, Principals: []string{"a"}, PublicKey: "k", Validity: 60})
+		cancel()
+		rec := map[string]any{"endpoints": len(list), "first_endpoint_reply": plain, "result": fmt.Sprintf("certs=%d comments=%d err=%v", len(certs), len(comments), serr)}
+		switch {
+		case serr == nil && len(certs) == 0:
+			r.Violation(c, fmt.Sprintf("empty-success:reply-without-certificates:endpoints=%d", len(list)), fmt.Sprintf("the first endpoint answered with %d plain public keys and no certificate; Sign returned no error and nothing (the second endpoint received %d requests)", 1+pi, len(byIP[ips[1]].Calls())), rec)
+			continue
+		case serr == nil && len(certs) == len(want) && string(certs[0].Marshal()) == string(want[0].Marshal()):
+			r.Count("reply without certificates -> next endpoint's certificates", 1)
+		case serr == nil:
+			r.Count("reply without certificates -> its keys returned as they are", 1)
+		default:
+			r.Count("reply without certificates -> error", 1)
+		}
+		r.Nontrivial(fmt.Sprintf("plain-keys:%v", two))
+	}
 	// default retry configuration (Retries and PerTryTimeout left unset or partly set): a hanging first endpoint must not
 	// eat the caller's whole deadline. Costs ~10 s of retries and backoff (the only slow case of this check).
 	{
